@@ -26,7 +26,7 @@ META = {
 
 UNIFYING = gen.PRESETS["unifying"]
 SHAPES = ["identical", "near_unanimous", "near_unanimous", "near_unanimous_incomplete", "near_unanimous_incomplete",
-          "incomplete", "complete", "cyclic", "cyclic_incomplete", "sparse_block", "singletons", "singletons"]
+          "incomplete", "complete", "cyclic", "cyclic_incomplete", "sparse_block", "singletons", "singletons", "splits", "splits", "clones"]
 
 
 def proportional(a, b, upto=6):
@@ -90,6 +90,8 @@ def cases(draw, tier):
 EXTRA_SCHEMES = [gen.PRESETS["unifying"], gen.scale(gen.PRESETS["unifying"], 2.0), gen.PRESETS["extended"],
                  gen.PRESETS["pseudodistance_half"], gen.PRESETS["induced"],
                  [[0.0, 1.0, 1.0, 0.0, 1.0, 1.0], [0.5, 0.5, 0.0, 1.0, 1.0, 0.0]],
+                 # cheap ties, symmetric (B[2] = T[0] well under B[1] / 2): the score is far from a metric
+                 [[0.0, 1.0, 0.125, 0.0, 1.0, 0.0], [0.125, 0.125, 0.0, 0.125, 0.125, 0.0]],
                  # ties cost nothing either way: input rankings that only differ by ties all score the same (often 0)
                  [[0.0, 1.0, 0.0, 0.0, 0.0, 0.0], [0.0, 0.0, 0.0, 0.0, 0.0, 0.0]]]
 
@@ -110,7 +112,7 @@ def check(case, ctx):
             c["scheme"], c["batched"] = sch, False
             c["family"] = "unifying" if sch[0][5] == sch[0][1] and sch[1][0] == sch[0][1] else "other"
             c["at_most_one"] = not case["at_most_one"] if sch is EXTRA_SCHEMES[2] else case["at_most_one"]
-            if sch is EXTRA_SCHEMES[-1]:
+            if sch is EXTRA_SCHEMES[-1] or sch is EXTRA_SCHEMES[-2]:
                 c["at_most_one"] = False
             check_one(c, ctx, shared)
 
